@@ -315,7 +315,9 @@ Section exec.
                                         end
                        | None => Some (m_changed r)
                        end) with
-                | None => (evs, Fail)
+                | None =>
+                    (* changed_when failed to render: the module has run; in the code the error propagates *)
+                    if andb (negb (q_render_not_ignorable q)) (t_ignore t) then (evs ++ [EvAny], Ok st) else (evs, Fail)
                 | Some ch =>
                     let line := if is_include t then []
                                 else [EvOut (match m_output r with Some o => o | None => "" end)] in
